@@ -353,6 +353,20 @@ impl Qcow2Header {
             .into());
         }
 
+        // Host offsets have 56 bits (that is all an L1, L2 or refcount table
+        // entry can hold). A table near the top of the address space makes
+        // the offset arithmetic on it overflow, or wrap around to the
+        // header.
+        const MAX_HOST_OFFSET: u64 = 1 << 56;
+        if l1_table_offset > MAX_HOST_OFFSET - l1_size {
+            return Err(format!("qcow2 L1 table offset {l1_table_offset:#x} is too big").into());
+        }
+        if reftable_offset > MAX_HOST_OFFSET - rt_size {
+            return Err(
+                format!("qcow2 refcount table offset {reftable_offset:#x} is too big").into(),
+            );
+        }
+
         // Neither table can live in the header's cluster. A table at offset
         // 0 would be written (L1 growth, refcount table updates) over the
         // header.
